@@ -270,4 +270,211 @@ theorem fieldOf_init_nonlist (c : ClassDef) (d : AttrDef) (hd : d ∈ c.defs) (h
   simp only [hnl, Bool.false_eq_true, if_false]
   cases c.intDefaults.find? (fun p => p.1 == d.attr) <;> simp
 
+/-! ### list attributes of plain values -/
+
+/-- One AVP of a list attribute is appended to the attribute's list. -/
+theorem assignStep_list_elem (getv : Ty → Bytes → R Value) (dict : DTree) (c : ClassDef) (recur : Nat → List Avp → R FVal)
+    (fields : List (Nat × FVal)) (extra : List Avp) (a : Avp) (d : AttrDef) (e : DictEntry) (v : Value) (prev : List Value)
+    (hn : neededDef c.defs a.code a.vendor = some d) (ht : d.tclass = none)
+    (he : lookupDict dict a.code a.vendor = some e) (hg : getv (Ty.ofTag e.ty) a.payload = .ok v)
+    (hcur : fieldOf fields d = .list prev) :
+    assignStep getv dict c recur (fields, extra) a = .ok (setField fields d.attr (.list (prev ++ [v])), extra) := by
+  unfold assignStep
+  simp only [hn, ht, he, hg]
+  show (match fieldOf fields d with
+    | FVal.list vs => Except.ok (setField fields d.attr (FVal.list (vs ++ [v])), extra)
+    | FVal.objs os => Except.ok (setField fields d.attr (FVal.objs (os ++ [FVal.scalar v])), extra)
+    | _ => Except.ok (setField fields d.attr (FVal.scalar v), extra)) = _
+  rw [hcur]
+
+/-- element by element: the AVP generated for a list element carries the
+    definition's key and the typed encoding of the element -/
+inductive ElemsGen (dict : DTree) (d : AttrDef) (e : DictEntry) : List Value → List Avp → Prop
+  | nil : ElemsGen dict d e [] []
+  | cons (v : Value) (vs : List Value) (a : Avp) (as : List Avp) :
+      a.code = d.code → a.vendor = d.vendor → setArg rfcTime (Ty.ofTag e.ty) (scalarArg v) = .ok a.payload →
+      ElemsGen dict d e vs as → ElemsGen dict d e (v :: vs) (a :: as)
+
+theorem mapM_elems (dict : DTree) (d : AttrDef) (e : DictEntry) (he : lookupDict dict d.code d.vendor = some e)
+    (vs : List Value) (out : List Avp)
+    (h : vs.mapM (fun v => avpNew rfcTime dict d.code d.vendor (some (scalarArg v)) d.mand 0) = .ok out) :
+    ElemsGen dict d e vs out := by
+  induction vs generalizing out with
+  | nil =>
+    simp only [List.mapM_nil, pure, Except.pure] at h
+    injection h with h; subst h
+    exact .nil
+  | cons v vs ih =>
+    rw [List.mapM_cons] at h
+    simp only [bind, Except.bind, pure, Except.pure] at h
+    split at h
+    · contradiction
+    · rename_i a ha
+      split at h
+      · contradiction
+      · rename_i rest hrest
+        injection h with h; subst h
+        obtain ⟨h1, h2, _⟩ := avpNew_spec _ _ _ _ _ _ _ _ ha
+        obtain ⟨e', he', hp⟩ := avpNew_payload _ _ _ _ _ _ _ _ ha
+        rw [he] at he'; injection he' with he'; subst he'
+        exact .cons v vs a rest h1 h2 hp (ih rest hrest)
+
+/-- assigning the AVPs of a list attribute appends the elements, in order, and
+    touches no other attribute -/
+theorem assignLoop_list (dict : DTree) (g : Bool) (c : ClassDef) (recur : Nat → List Avp → R FVal)
+    (d : AttrDef) (e : DictEntry) (hneed : neededDef c.defs d.code d.vendor = some d) (ht : d.tclass = none)
+    (he : lookupDict dict d.code d.vendor = some e)
+    (vs : List Value) (as : List Avp) (hgen : ElemsGen dict d e vs as) (hdom : ∀ v ∈ vs, InDomain (Ty.ofTag e.ty) v)
+    (f0 : List (Nat × FVal)) (x0 : List Avp) (prev : List Value) (hcur : fieldOf f0 d = .list prev) :
+    ∃ f1, assignLoop (assignStep (getValue rfcTime g) dict c recur) as (f0, x0) = .ok (f1, x0) ∧
+      fieldOf f1 d = .list (prev ++ vs) ∧ ∀ d', d'.attr ≠ d.attr → fieldOf f1 d' = fieldOf f0 d' := by
+  induction hgen generalizing f0 prev with
+  | nil => exact ⟨f0, rfl, by simpa using hcur, fun _ _ => rfl⟩
+  | cons v vs a as hc1 hc2 hp _ ih =>
+    have hneed' : neededDef c.defs a.code a.vendor = some d := by rw [hc1, hc2]; exact hneed
+    have he' : lookupDict dict a.code a.vendor = some e := by rw [hc1, hc2]; exact he
+    have hv := hdom v (List.mem_cons_self ..)
+    obtain ⟨p, hs, hg⟩ := value_roundtrip g (Ty.ofTag e.ty) v hv
+    have hsa : setArg rfcTime (Ty.ofTag e.ty) (scalarArg v) = setValue rfcTime (Ty.ofTag e.ty) v := by
+      cases v <;> first | rfl | (cases hty : Ty.ofTag e.ty <;> simp [hty, InDomain] at hv)
+    rw [hsa, hs] at hp
+    injection hp with hp
+    have hget : getValue rfcTime g (Ty.ofTag e.ty) a.payload = .ok v := by rw [← hp]; exact hg
+    have hstep := assignStep_list_elem (getValue rfcTime g) dict c recur f0 x0 a d e v prev hneed' ht he' hget hcur
+    obtain ⟨f1, h1, h2, h3⟩ := ih (fun y hy => hdom y (List.mem_cons_of_mem _ hy)) (setField f0 d.attr (.list (prev ++ [v]))) (prev ++ [v])
+      (fieldOf_setField_same _ _ _)
+    refine ⟨f1, ?_, ?_, ?_⟩
+    · simp only [assignLoop, hstep]; exact h1
+    · rw [h2]; simp
+    · intro d' hne
+      rw [h3 d' hne, fieldOf_setField_other _ _ _ _ hne]
+
+/-- the value an attribute must have after the round trip: a set scalar, the
+    previous list extended by the set elements, or what was there before -/
+def expectFlat (fs f0 : List (Nat × FVal)) (ds : List AttrDef) (d' : AttrDef) : FVal :=
+  if d' ∈ ds then
+    (match fieldOf fs d' with
+     | .scalar v => .scalar v
+     | .list xs => (match fieldOf f0 d' with | .list p => .list (p ++ xs) | o => o)
+     | _ => fieldOf f0 d')
+  else fieldOf f0 d'
+
+/-- unset, an in-domain scalar, or a list of in-domain plain values, under a
+    definition without container class -/
+def FlatOK (dict : DTree) (d : AttrDef) (v : FVal) : Prop :=
+  v = .unset ∨
+  (∃ x e, v = .scalar x ∧ d.tclass = none ∧ lookupDict dict d.code d.vendor = some e ∧ InDomain (Ty.ofTag e.ty) x) ∨
+  (∃ xs e, v = .list xs ∧ d.tclass = none ∧ lookupDict dict d.code d.vendor = some e ∧ ∀ x ∈ xs, InDomain (Ty.ofTag e.ty) x)
+
+/-- what the starting object must hold under a definition whose attribute is set -/
+def StartOK (fs f0 : List (Nat × FVal)) (d : AttrDef) : Prop :=
+  match fieldOf fs d with
+  | .scalar _ => (∀ vs, fieldOf f0 d ≠ .list vs) ∧ (∀ os, fieldOf f0 d ≠ .objs os)
+  | .list _ => ∃ prev, fieldOf f0 d = .list prev
+  | _ => True
+
+theorem assign_generate_flat_aux (dict : DTree) (cs : List ClassDef) (g : Bool) (c : ClassDef)
+    (recur : Nat → List Avp → R FVal) (fuel : Nat) (fs : List (Nat × FVal))
+    (hattr : ∀ x ∈ c.defs, ∀ y ∈ c.defs, x.attr = y.attr → x = y)
+    (ds : List AttrDef) (hsub : ∀ d ∈ ds, d ∈ c.defs ∧ neededDef c.defs d.code d.vendor = some d)
+    (hdist : defsDistinct ds = true)
+    (hval : ∀ d ∈ ds, FlatOK dict d (fieldOf fs d))
+    (avps : List Avp) (hgen : genDefs rfcTime dict cs fuel fs ds = .ok avps)
+    (f0 : List (Nat × FVal)) (x0 : List Avp) (hf0 : ∀ d ∈ ds, StartOK fs f0 d) :
+    ∃ f1, assignLoop (assignStep (getValue rfcTime g) dict c recur) avps (f0, x0) = .ok (f1, x0) ∧
+      ∀ d' ∈ c.defs, fieldOf f1 d' = expectFlat fs f0 ds d' := by
+  induction ds generalizing avps f0 with
+  | nil =>
+    simp only [genDefs] at hgen
+    injection hgen with hgen; subst hgen
+    exact ⟨f0, rfl, fun d' _ => by simp [expectFlat]⟩
+  | cons d ds ih =>
+    obtain ⟨hne, hdist'⟩ := defsDistinct_head hdist
+    have hdmem := (hsub d (List.mem_cons_self ..)).1
+    have hneed := (hsub d (List.mem_cons_self ..)).2
+    have hnotin : d ∉ ds := fun hm => hne d hm rfl
+    simp only [genDefs, bind, Except.bind, pure, Except.pure] at hgen
+    split at hgen
+    · contradiction
+    · rename_i here hhere
+      split at hgen
+      · contradiction
+      · rename_i more hmore
+        injection hgen with hgen; subst hgen
+        have hsub' : ∀ x ∈ ds, x ∈ c.defs ∧ neededDef c.defs x.code x.vendor = some x :=
+          fun x hx => hsub x (List.mem_cons_of_mem _ hx)
+        have hval' : ∀ x ∈ ds, FlatOK dict x (fieldOf fs x) := fun x hx => hval x (List.mem_cons_of_mem _ hx)
+        have hhere : genOne rfcTime dict cs fuel d (fieldOf fs d) = .ok here := hhere
+        -- whatever is assigned for `d` leaves the other attributes alone: the starting condition of the rest survives
+        have keep : ∀ (f' : List (Nat × FVal)), (∀ d', d'.attr ≠ d.attr → fieldOf f' d' = fieldOf f0 d') →
+            ∀ y ∈ ds, StartOK fs f' y := by
+          intro f' hsame y hy
+          have := hf0 y (List.mem_cons_of_mem _ hy)
+          unfold StartOK at this ⊢
+          rw [hsame y (hne y hy)]
+          exact this
+        -- …and the expectation composes
+        have compose : ∀ (f' f1 : List (Nat × FVal)), (∀ d', d'.attr ≠ d.attr → fieldOf f' d' = fieldOf f0 d') →
+            fieldOf f' d = expectFlat fs f0 [d] d →
+            (∀ d' ∈ c.defs, fieldOf f1 d' = expectFlat fs f' ds d') →
+            ∀ d' ∈ c.defs, fieldOf f1 d' = expectFlat fs f0 (d :: ds) d' := by
+          intro f' f1 hsame hd h2 d' hd'
+          rw [h2 d' hd']
+          unfold expectFlat
+          by_cases hdd : d' = d
+          · subst hdd
+            simp only [hnotin, if_false, List.mem_cons, true_or, if_true]
+            rw [hd]; simp [expectFlat]
+          · have hattr' : d'.attr ≠ d.attr := fun e' => hdd (hattr d' hd' d hdmem e')
+            simp only [List.mem_cons, hdd, false_or]
+            rw [hsame d' hattr']
+        rcases hval d (List.mem_cons_self ..) with hu | ⟨x, e, hx, ht, he, hdom⟩ | ⟨xs, e, hx, ht, he, hdom⟩
+        · -- unset: nothing generated for `d`
+          rw [hu] at hhere
+          simp only [genOne] at hhere
+          injection hhere with hhere; subst hhere
+          obtain ⟨f1, h1, h2⟩ := ih hsub' hdist' hval' more hmore f0 (keep f0 (fun _ _ => rfl))
+          refine ⟨f1, by simpa using h1, compose f0 f1 (fun _ _ => rfl) ?_ h2⟩
+          simp [expectFlat, hu]
+        · -- a scalar: one AVP, assigned back to `d`
+          rw [hx] at hhere
+          obtain ⟨a, ha, hcar, hget⟩ := C03_scalar_roundtrip dict cs fuel g d x e he ht hdom here hhere
+          subst ha
+          obtain ⟨hc1, hc2, _⟩ := hcar
+          have hneed' : neededDef c.defs a.code a.vendor = some d := by rw [hc1, hc2]; exact hneed
+          have he' : lookupDict dict a.code a.vendor = some e := by rw [hc1, hc2]; exact he
+          have hst := hf0 d (List.mem_cons_self ..)
+          unfold StartOK at hst
+          rw [hx] at hst
+          have hstep := assignStep_scalar (getValue rfcTime g) dict c recur f0 x0 a d e x hneed' ht he' hget hst
+          have hsame : ∀ d', d'.attr ≠ d.attr → fieldOf (setField f0 d.attr (.scalar x)) d' = fieldOf f0 d' :=
+            fun d' h => fieldOf_setField_other _ _ _ _ h
+          obtain ⟨f1, h1, h2⟩ := ih hsub' hdist' hval' more hmore (setField f0 d.attr (.scalar x)) (keep _ hsame)
+          refine ⟨f1, ?_, compose _ f1 hsame ?_ h2⟩
+          · simp only [List.singleton_append, assignLoop, hstep]; exact h1
+          · rw [fieldOf_setField_same]; simp [expectFlat, hx]
+        · -- a list of plain values: one AVP per element, appended in order
+          rw [hx] at hhere
+          simp only [genOne, ht, Option.isSome_none, Bool.false_eq_true, if_false] at hhere
+          have hel := mapM_elems dict d e he xs here hhere
+          have hst := hf0 d (List.mem_cons_self ..)
+          unfold StartOK at hst
+          rw [hx] at hst
+          obtain ⟨prev, hprev⟩ := hst
+          obtain ⟨fm, hm1, hm2, hm3⟩ := assignLoop_list dict g c recur d e hneed ht he xs here hel hdom f0 x0 prev hprev
+          obtain ⟨f1, h1, h2⟩ := ih hsub' hdist' hval' more hmore fm (keep fm hm3)
+          refine ⟨f1, ?_, compose fm f1 hm3 ?_ h2⟩
+          · rw [assignLoop_append _ here more _ _ hm1]; exact h1
+          · rw [hm2]; simp [expectFlat, hx, hprev]
+
+/-- a list attribute of plain values starts as the empty list in a fresh object -/
+theorem fieldOf_init_list (c : ClassDef) (d : AttrDef) (hd : d ∈ c.defs) (hl : d.isList = true) (ht : d.tclass = none)
+    (hattr : ∀ x ∈ c.defs, ∀ y ∈ c.defs, x.attr = y.attr → x = y) :
+    fieldOf (initFields c) d = .list [] := by
+  unfold fieldOf
+  rw [initFields_eq, find_init c d c.defs (fun x hx e => hattr x hx d hd e)]
+  simp only [hd, if_true]
+  unfold initVal
+  simp [hl, ht]
+
 end DV
